@@ -10,8 +10,9 @@ for d in sorted(glob.glob(f'/verif/seeded/{pid}/mut*')):
         t = open(os.path.join(d, 'needs.txt')).read().strip()[:200]
     files = sorted({ln[6:].strip() for ln in open(os.path.join(d, 'patch.diff')) if ln.startswith('+++ b/')})
     used.append(f'  - {t}  [{", ".join(files)}]')
-base = base.replace(f'/tmp/seed/{pid}/mut<k>/', f'/tmp/seed2/{pid}/mut<k>/')
-extra = ('\n\nSECOND ROUND. Colleagues already produced the following mutations for this property; do NOT repeat these ideas or close variants, and prefer other code sites, other classes named in the anchors, and other clauses of the property statement (read the statement again: every sentence is a separate promise):\n'
+OUT = os.environ.get('SEED_OUT', '/tmp/seed2')
+base = base.replace(f'/tmp/seed/{pid}/mut<k>/', f'{OUT}/{pid}/mut<k>/')
+extra = ('\n\nFURTHER ROUND. Colleagues already produced the following mutations for this property; do NOT repeat these ideas or close variants, and prefer other code sites, other classes named in the anchors, and other clauses of the property statement (read the statement again: every sentence is a separate promise):\n'
          + '\n'.join(used) +
          '\nAim for changes that are subtle in a different way: e.g. only wrong for a particular combination of two options, only on the second use of an object, only for a rarely used subclass / data type / boundary case, only when an optional feature is switched on. The change must still be a genuine violation of the stated property, not merely of some other expectation.\n')
 print(base + extra)
